@@ -1,8 +1,270 @@
-//! C18 — stub, to be written.
+//! C18: valuation types and comparators obey their equality / ordering contracts.
+//!
+//! A *history* is a `.`-separated list of operations applied to `BddPartialValuation::empty()` (`~` = none):
+//!   s<x>=<b>   set_value(x, b)            u<x>      unset_value(x)
+//!   i<x>=<c>   p[x] = c  (IndexMut; c in 0,1,-)      r  p = from_values(&p.to_values())
+//!   T<bits>    p = BddPartialValuation::from(BddValuation::new(bits))   (T~ = no variables)
+//!
+//! Case kinds (inputs => observed):
+//!   C18.pv <k> <h1> <h2>  => get1 idx1 vals1 card1 last1 empty1 try1  get2 idx2 vals2 card2 last2 empty2 try2
+//!                            eq12 eq21 hasheq ext12 ext21 back1 back2
+//!        (get/idx over the variables 0..k; tryN = `err` or the bits; backN = from(try_from(pN)) == pN or `-`)
+//!   C18.conv <bits>       => partial-values try-roundtrip bdd eval card witness is_valuation
+//!   C18.ext <bits> <h>    => total.extends(partial)
+//!   C18.cmp <a> <b> <c>   => for the pairs ab ba bc ac aa: size card strict implies structural (5 letters each,
+//!                            L/E/G/N) then a==b b==c a==c
 #[path = "../common.rs"]
 mod common;
 use common::*;
+use biodivine_lib_bdd::*;
+use std::cmp::Ordering;
+use std::collections::hash_map::DefaultHasher;
+use std::convert::TryFrom;
+use std::hash::{Hash, Hasher};
 
-pub fn run(key: &str, _a: &[String], _out: &mut Out) { panic!("unknown key {}", key) }
-pub fn gen(_tier: Tier, _rng: &mut Rng64, _out: &mut Out) {}
+fn s(x: &str) -> String { x.to_string() }
+
+fn parse_bits(x: &str) -> Vec<bool> { if x == "~" { vec![] } else { x.chars().map(|c| c == '1').collect() } }
+
+fn apply_history(h: &str) -> BddPartialValuation {
+    let mut p = BddPartialValuation::empty();
+    if h == "~" { return p; }
+    for op in h.split('.') {
+        let (kind, rest) = op.split_at(1);
+        match kind {
+            "s" => { let (x, b) = rest.split_once('=').unwrap(); p.set_value(var(x.parse().unwrap()), b == "1"); }
+            "u" => { p.unset_value(var(rest.parse().unwrap())); }
+            "i" => {
+                let (x, c) = rest.split_once('=').unwrap();
+                p[var(x.parse().unwrap())] = match c { "1" => Some(true), "0" => Some(false), _ => None };
+            }
+            "r" => { p = BddPartialValuation::from_values(&p.to_values()); }
+            "T" => { p = BddPartialValuation::from(BddValuation::new(parse_bits(rest))); }
+            _ => panic!("bad op {}", op),
+        }
+    }
+    p
+}
+
+fn cell(c: Option<bool>) -> char { match c { Some(true) => '1', Some(false) => '0', None => '-' } }
+fn fmt_vals(v: &[(BddVariable, bool)]) -> String {
+    if v.is_empty() { s("~") } else { v.iter().map(|(x, b)| format!("{}={}", x.to_index(), if *b { 1 } else { 0 })).collect::<Vec<_>>().join(",") }
+}
+fn hash_of(p: &BddPartialValuation) -> u64 { let mut h = DefaultHasher::new(); p.hash(&mut h); h.finish() }
+fn b01(b: bool) -> String { s(if b { "1" } else { "0" }) }
+fn ob01(b: Option<bool>) -> String { match b { Some(b) => b01(b), None => s("panic") } }
+
+fn observe_one(p: &BddPartialValuation, k: usize, o: &mut Vec<String>) {
+    let get: String = (0..k).map(|i| cell(p.get_value(var(i)))).collect();
+    let idx: String = (0..k).map(|i| cell(p[var(i)])).collect();
+    o.push(get); o.push(idx);
+    o.push(fmt_vals(&p.to_values()));
+    o.push(match catch(|| p.cardinality()) { Some(c) => c.to_string(), None => s("panic") });
+    o.push(match p.last_fixed_variable() { Some(v) => v.to_index().to_string(), None => s("-") });
+    o.push(b01(p.is_empty()));
+    o.push(match catch(|| BddValuation::try_from(p.clone())) { Some(Ok(v)) => fmt_valuation(&v), Some(Err(())) => s("err"), None => s("panic") });
+}
+
+fn ord_letter(o: Option<Ordering>) -> char {
+    match o { Some(Ordering::Less) => 'L', Some(Ordering::Equal) => 'E', Some(Ordering::Greater) => 'G', None => 'N' }
+}
+
+fn cmp5(a: &Bdd, b: &Bdd) -> String {
+    let mut r = String::new();
+    r.push(match catch(|| Bdd::cmp_size(a, b)) { Some(o) => ord_letter(Some(o)), None => 'P' });
+    r.push(match catch(|| Bdd::cmp_cardinality(a, b)) { Some(o) => ord_letter(Some(o)), None => 'P' });
+    r.push(match catch(|| Bdd::cmp_cardinality_strict(a, b)) { Some(o) => ord_letter(o), None => 'P' });
+    r.push(match catch(|| Bdd::cmp_implies(a, b)) { Some(o) => ord_letter(o), None => 'P' });
+    r.push(match catch(|| Bdd::cmp_structural(a, b)) { Some(o) => ord_letter(Some(o)), None => 'P' });
+    r
+}
+
+/// Executes one case from its textual inputs and writes the observation.
+pub fn run(key: &str, a: &[String], out: &mut Out) {
+    match key {
+        "C18.pv" => {
+            let k: usize = a[0].parse().unwrap();
+            let (p, q) = (apply_history(&a[1]), apply_history(&a[2]));
+            let mut o = Vec::new();
+            observe_one(&p, k, &mut o);
+            observe_one(&q, k, &mut o);
+            o.push(b01(p == q)); o.push(b01(q == p));
+            o.push(b01(hash_of(&p) == hash_of(&q)));
+            o.push(ob01(catch(|| p.extends(&q)))); o.push(ob01(catch(|| q.extends(&p))));
+            for x in [&p, &q] {
+                o.push(match catch(|| BddValuation::try_from(x.clone())) {
+                    Some(Ok(v)) => b01(BddPartialValuation::from(v) == *x),
+                    _ => s("-"),
+                });
+            }
+            out.case(key, a, &o);
+        }
+        "C18.conv" => {
+            let bits = parse_bits(&a[0]);
+            let v = BddValuation::new(bits.clone());
+            let partial = BddPartialValuation::from(v.clone());
+            let back = catch(|| BddValuation::try_from(partial.clone()));
+            let bdd = catch(|| Bdd::from(v.clone()));
+            let mut o = vec![fmt_vals(&partial.to_values()),
+                match back { Some(Ok(w)) => b01(w == v), Some(Err(())) => s("err"), None => s("panic") }];
+            match &bdd {
+                Some(b) => {
+                    o.push(fmt_bdd(b));
+                    o.push(ob01(catch(|| b.eval_in(&v))));
+                    o.push(match catch(|| b.exact_cardinality()) { Some(c) => c.to_string(), None => s("panic") });
+                    o.push(match catch(|| b.sat_witness()) { Some(Some(w)) => b01(w == v), Some(None) => s("none"), None => s("panic") });
+                    o.push(ob01(catch(|| b.is_valuation())));
+                }
+                None => { for _ in 0..5 { o.push(s("panic")); } }
+            }
+            out.case(key, a, &o);
+        }
+        "C18.ext" => {
+            let v = BddValuation::new(parse_bits(&a[0]));
+            let p = apply_history(&a[1]);
+            out.case(key, a, &[ob01(catch(|| v.extends(&p)))]);
+        }
+        "C18.cmp" => {
+            let (x, y, z) = (Bdd::from_string(&a[0]), Bdd::from_string(&a[1]), Bdd::from_string(&a[2]));
+            let o = vec![cmp5(&x, &y), cmp5(&y, &x), cmp5(&y, &z), cmp5(&x, &z), cmp5(&x, &x), b01(x == y), b01(y == z), b01(x == z)];
+            out.case(key, a, &o);
+        }
+        _ => panic!("unknown key {}", key),
+    }
+}
+
+/// the 9 base operations over 3 variables: 6 sets, 3 unsets
+fn base_ops(nv: usize) -> Vec<String> {
+    let mut ops = Vec::new();
+    for x in 0..nv { ops.push(format!("s{}=0", x)); ops.push(format!("s{}=1", x)); ops.push(format!("u{}", x)); }
+    ops
+}
+
+/// final map of a history over small variables, computed by the harness only to pick partners
+fn final_map(h: &str) -> Vec<(usize, bool)> {
+    apply_history(h).to_values().iter().map(|(v, b)| (v.to_index(), *b)).collect()
+}
+
+fn join(ops: &[String]) -> String { if ops.is_empty() { s("~") } else { ops.join(".") } }
+
+/// another history with the same final map: the canonical `set`s in a random order, optionally padded
+fn same_map_partner(rng: &mut Rng64, h: &str) -> String {
+    let mut m = final_map(h);
+    // shuffle
+    for i in (1..m.len()).rev() { let j = rng.below(i as u64 + 1) as usize; m.swap(i, j); }
+    let mut ops: Vec<String> = Vec::new();
+    for (x, b) in &m {
+        if rng.chance(1, 3) { ops.push(format!("s{}={}", x, if *b { 0 } else { 1 })); } // overwritten below
+        if rng.chance(1, 4) { ops.push(format!("i{}={}", x, if *b { 1 } else { 0 })); } else { ops.push(format!("s{}={}", x, if *b { 1 } else { 0 })); }
+    }
+    match rng.below(5) {
+        0 => ops.push(format!("u{}", 3 + rng.below(4))),               // trailing None padding
+        1 => { let x = 3 + rng.below(3); ops.push(format!("s{}=1", x)); ops.push(format!("i{}=-", x)); }
+        2 => ops.push(s("r")),
+        3 => { ops.insert(0, format!("s{}=1", 5)); ops.push(s("u5")); }
+        _ => {}
+    }
+    join(&ops)
+}
+
+fn random_history(rng: &mut Rng64, nv: usize, max_len: usize) -> String {
+    let len = rng.below(max_len as u64 + 1) as usize;
+    let mut ops = Vec::new();
+    for _ in 0..len {
+        let x = rng.below(nv as u64);
+        ops.push(match rng.below(8) {
+            0 | 1 => format!("s{}=0", x), 2 | 3 => format!("s{}=1", x), 4 => format!("u{}", x),
+            5 => format!("i{}={}", x, *rng.pick(&["0", "1", "-"])),
+            6 => s("r"),
+            _ => { let n = rng.below(nv as u64 + 1) as usize; format!("T{}", fmt_bools(&(0..n).map(|_| rng.bool()).collect::<Vec<_>>())) }
+        });
+    }
+    join(&ops)
+}
+
+fn pv(k: usize, h1: &str, h2: &str, out: &mut Out) { run("C18.pv", &[k.to_string(), s(h1), s(h2)], out) }
+
+fn all_small_bdds(max_n: usize) -> Vec<String> {
+    let mut v = Vec::new();
+    for n in 0..=max_n { for t in 0..(1u64 << (1u64 << n)) { v.push(fmt_triples(&canon_triples(n, &tt_from_index(n, t)))); } }
+    v
+}
+
+pub fn gen(tier: Tier, rng: &mut Rng64, out: &mut Out) {
+    let thorough = tier == Tier::Thorough;
+    let ops = base_ops(3);
+    // --- all histories of <= L set/unset operations over 3 variables; each with a same-map partner
+    //     (different construction / padding) and with a random partner (mostly a different map)
+    let exhaustive_len = if thorough { 5 } else { 3 };
+    let mut level: Vec<Vec<String>> = vec![vec![]];
+    for len in 0..=exhaustive_len {
+        for h in &level {
+            let hs = join(h);
+            pv(5, &hs, &same_map_partner(rng, &hs), out);
+            pv(5, &hs, &random_history(rng, 3, 5), out);
+            if len <= 2 || rng.chance(1, 8) {
+                // extends of every total valuation over 3 variables
+                for i in 0..8usize { run("C18.ext", &[fmt_bools(&val_of_index(3, i)), hs.clone()], out); }
+            }
+        }
+        if len < exhaustive_len {
+            let mut next = Vec::new();
+            for h in &level { for op in &ops { let mut g = h.clone(); g.push(op.clone()); next.push(g); } }
+            level = next;
+        }
+    }
+    // pairs of short histories, exhaustively (length <= 2 each): 91 x 91
+    let mut short: Vec<String> = vec![s("~")];
+    for a in &ops { short.push(a.clone()); for b in &ops { short.push(format!("{}.{}", a, b)); } }
+    for h1 in &short { for h2 in &short { pv(4, h1, h2, out); } }
+    // --- sampled longer histories with index operators, rebuilds and conversions
+    for _ in 0..(if thorough { 60000 } else { 4000 }) {
+        let nv = 1 + rng.below(5) as usize;
+        let h1 = random_history(rng, nv, 7);
+        let h2 = if rng.bool() { same_map_partner(rng, &h1) } else { random_history(rng, nv, 7) };
+        pv(nv + 2, &h1, &h2, out);
+        if rng.chance(1, 3) {
+            let n = rng.below(nv as u64 + 2) as usize;
+            let bits: Vec<bool> = (0..n).map(|_| rng.bool()).collect();
+            run("C18.ext", &[fmt_bools(&bits), h1.clone()], out);
+        }
+    }
+    // --- large indices (growth of the vector; u16 casts of the length)
+    for (h1, h2) in [("s300=1", "s300=1.u4000"), ("s65534=1", "s65534=1.r"), ("s65534=0.u65534", "~"), ("s1=1.s65534=0", "s65534=0.s1=1.u70")] {
+        pv(3, h1, h2, out);
+    }
+    // --- conversions: all total valuations over <= 6 variables, sampled larger ones
+    for n in 0..=(if thorough { 10 } else { 6 }) { for i in 0..(1usize << n) { run("C18.conv", &[fmt_bools(&val_of_index(n, i))], out); } }
+    for n in [13usize, 64, 65, 300, 2000] {
+        for _ in 0..(if thorough { 40 } else { 4 }) { run("C18.conv", &[fmt_bools(&(0..n).map(|_| rng.bool()).collect::<Vec<_>>())], out); }
+    }
+    // --- comparators: all triples over the 22 functions of <= 2 variables (mixed variable counts included)
+    let small = all_small_bdds(2);
+    for a in &small { for b in &small { for c in &small {
+        if thorough || rng.chance(1, 2) || (a == b || b == c) { run("C18.cmp", &[a.clone(), b.clone(), c.clone()], out); }
+    } } }
+    // sampled triples over 3 variables, over larger random functions, and with non-canonical variants
+    for _ in 0..(if thorough { 80000 } else { 4000 }) {
+        let f = |rng: &mut Rng64| fmt_triples(&canon_triples(3, &tt_from_index(3, rng.below(256))));
+        let (a, b) = (f(rng), f(rng));
+        let c = if rng.chance(1, 4) { a.clone() } else { f(rng) };
+        run("C18.cmp", &[a, b, c], out);
+    }
+    for _ in 0..(if thorough { 20000 } else { 1500 }) {
+        let n = 2 + rng.below(5) as usize;
+        let x = random_bdd(rng, n);
+        // related operands so that implication holds often: y = x or z, w = x and z
+        let z = random_bdd(rng, n);
+        let (y, w) = (x.or(&z), x.and(&z));
+        let pick = |rng: &mut Rng64, b: &Bdd| if rng.chance(1, 5) { fmt_bdd(&noncanon_variant(rng, b)) } else { fmt_bdd(b) };
+        let m = if rng.chance(1, 6) { random_bdd(rng, n + 1) } else { z.clone() };
+        let trip = match rng.below(3) {
+            0 => [pick(rng, &w), pick(rng, &x), pick(rng, &y)],
+            1 => [pick(rng, &y), pick(rng, &x), pick(rng, &m)],
+            _ => [pick(rng, &x), pick(rng, &x), pick(rng, &m)],
+        };
+        run("C18.cmp", &trip, out);
+    }
+}
+
 fn main() { harness_main(gen, run) }
